@@ -112,7 +112,7 @@ func genBody(r *hx.Rand, min int) []byte {
 func runNegotiate(seed uint64, n int, tier string, out string, replay string) {
 	rnd := hx.NewRand(seed)
 	sum := hx.NewSummary("negotiate", seed)
-	sum.Rule = "one case = one upstream answer (status, headers, one of the six documented encodings or a malformed stream, body from {empty, 1 B, min-1, min, min+1, random, repetitive, json, a gzip file as the body itself}) x server settings (profile name registered/unregistered/best, min length 0/1/16/64, filter default/custom/non-matching; the same content types are reused under different filters within the process) x {not stored, stored via Cacheable, stored + persistence round trip}, served under 5 Accept-Encoding values drawn from 14 plain coding lists; non-trivial = compressible response (some variant above the threshold and type matches); distinct by (encoding, body, settings, path); Go-side only: 4 large highly compressible bodies (20 KB-300 KiB, LZ4 ratios 198-254) in each of the six upstream encodings through NewHTTPResponse -> Cacheable -> Fill under 4 Accept-Encoding values, decoded with reference decoders"
+	sum.Rule = "one case = one upstream answer (status, headers, one of the six documented encodings or a malformed stream, body from {empty, 1 B, min-1, min, min+1, random, repetitive, json, a gzip file as the body itself}) x server settings (profile name registered/unregistered/best, min length 0/1/16/64, filter default/custom/non-matching; the same content types are reused under different filters within the process) x {not stored, stored via Cacheable, stored + persistence round trip}, served under 5 Accept-Encoding values drawn from 14 plain coding lists; non-trivial = compressible response (some variant above the threshold and type matches); distinct by (encoding, body, settings, path); Go-side only: 4 large highly compressible bodies (20 KB-300 KiB, LZ4 ratios 198-254) in each of the six upstream encodings (gzip also as a two-member stream) through NewHTTPResponse -> Cacheable -> Fill under 4 Accept-Encoding values, decoded with reference decoders"
 	header := "From Coq Require Import List NArith ZArith.\nImport ListNotations.\nFrom Pike Require Import Base.Bytes Model.MaxAge Model.Resp Corr.RespCorr.\n"
 	w := hx.NewCaseWriter(out, "negotiate", header, "list rs_case", "check_cases", 40, sum)
 	distinct := hx.NewDistinct()
@@ -366,11 +366,16 @@ func runNegotiate(seed uint64, n int, tier string, out string, replay string) {
 		"64-byte pattern x 3000":                   bytes.Repeat(rnd.Bytes(64), 3000),
 	}
 	for name, orig := range bigs {
-		for _, enc := range []string{"", "gzip", "br", "lz4", "snz", "zst"} {
+		for _, enc := range []string{"", "gzip", "gzip-2-members", "br", "lz4", "snz", "zst"} {
 			var data []byte
 			switch enc {
 			case "":
 				data = orig
+			case "gzip-2-members": // a gzip body made of two members (cat a.gz b.gz): still one valid gzip stream
+				a, _ := compress.VerifGzip(orig[:len(orig)/3], 6)
+				b, _ := compress.VerifGzip(orig[len(orig)/3:], 9)
+				data = append(append([]byte{}, a...), b...)
+				enc = "gzip"
 			case "gzip":
 				data, _ = compress.VerifGzip(orig, 6)
 			case "br":
